@@ -135,7 +135,19 @@ func (c *Ctx) key(k string, sort Sort) *heapInfo {
 	c.sc.declareConst(name, sort)
 	hi := &heapInfo{sort: sort, init: &Term{name, sort}}
 	c.keys[k] = hi
+	c.nilMapEmpty(k, hi.init)
 	return hi
+}
+
+// nilMapEmpty: a nil map has no keys (reading it is legal in Go; writing panics and is a safety obligation), so the
+// domain recorded for the null reference is empty in every heap, the initial one and each havoced one.
+func (c *Ctx) nilMapEmpty(k string, t *Term) {
+	if !strings.HasPrefix(k, "MD:") {
+		return
+	}
+	if ix, inner, ok := arrParts(t.Sort); ok && ix == SV {
+		c.sc.assert(mk(SBool, "(= (select %s null) ((as const %s) false))", t.S, inner))
+	}
 }
 
 func (c *Ctx) get(s *State, k string, sort Sort) *Term {
@@ -164,6 +176,7 @@ func (c *Ctx) havoc(s *State, k string) {
 		return
 	}
 	s.h[k] = c.sc.freshConst("Hv_"+k, hi.sort)
+	c.nilMapEmpty(k, s.h[k])
 }
 
 // havocAll forgets everything about the heap except the clock ordering.
